@@ -354,7 +354,7 @@ def g_text_map(ch, label="text"):
         return {"en": {key: d}}
     if mode == "strings":
         return {"en": {"suit-text-manifest-description": ch.choose(label + ".s", TXT)}}
-    return {ch.choose(label + ".l1", ["en", "pl-PL", ""]): {"suit-text-manifest-description": "a"},
+    return {ch.choose(label + ".l1", ["en", "pl-PL", "", "419", "1", "true", "1.5", "0x1F", "-7", "1e3", "[]", "{}", '"419"', '"true"', '"en"', '"1.5"']): {"suit-text-manifest-description": "a"},
             "de": {"suit-text-update-description": "b"}}
 
 
